@@ -5,7 +5,7 @@ import typing
 from email.header import Header
 from mailbox import Maildir, Message, mbox
 
-from pygopherd import gopherentry
+from pygopherd import GopherExceptions, gopherentry
 from pygopherd.handlers.base import VFS_Real
 from pygopherd.handlers.virtual import Virtual
 
@@ -102,8 +102,14 @@ class MessageHandler(Virtual):
 
         mailbox = iter(self.openmailbox())
         message = None
-        for _ in range(self.message_num):
-            message = next(mailbox)
+        try:
+            for _ in range(self.message_num):
+                message = next(mailbox)
+        except StopIteration:
+            # The message number is past the end of the mailbox.
+            raise GopherExceptions.FileNotFound(
+                self.selector, "no such message", self.protocol
+            )
 
         self.message = message
         return self.message
